@@ -599,6 +599,39 @@ def code_identifier_derivation(res, prog):
         res.violation('C02.9', 'C02.9|elf-zero', f, f.line, 'Elf code id: not guarded by "not every byte of the whole build id is zero"')
 
 
+def architecture_tables(res, prog):
+    """C02.10: every processor architecture the system-info reader knows as a CPU has a context layout in
+    MinidumpContext::read - the two `match ProcessorArchitecture::from_u16(..)` tables list the same architectures.
+    (Before the repair 3a340a5 mips64 was a known CPU whose contexts were all UnknownCpuContext.)"""
+    res.rule('C02.10', 0, floor=10, note='Cpu::from_processor_architecture and MinidumpContext::read cover the same architectures')
+    c = prog.crate('minidump')
+    tabs = {}
+    for path in ('minidump::system_info::Cpu::from_processor_architecture', 'minidump::context::MinidumpContext::read'):
+        f = need_fn(res, c, path, 'C02.10')
+        if f is None:
+            return
+        vals = None
+        for b in sorted(f.reach):
+            t = f.blocks[b]['t']
+            if t['k'] == 'switch':
+                x = show(f.expand(f.operand_tree(t['x'])))
+                if x.startswith('(discr (Some.0 (num_traits::FromPrimitive::from_u16 '):
+                    vals = set(v for v, tgt in t['ts'])
+        if vals is None:
+            res.error('C02.10', 'no match on ProcessorArchitecture::from_u16 in %s' % path)
+            return
+        tabs[path] = vals
+    a, b = tabs['minidump::system_info::Cpu::from_processor_architecture'], tabs['minidump::context::MinidumpContext::read']
+    adt = prog.crate('minidump_common').adts.get('minidump_common::format::ProcessorArchitecture')
+    names = {v.get('discr', i): v['name'] for i, v in enumerate(adt['variants'])} if adt else {}
+    for v in sorted(a | b):
+        res.rule('C02.10', 1)
+        if v in a and v not in b:
+            res.violation('C02.10', 'C02.10|no-context|%s' % names.get(v, v), c.fn('minidump::context::MinidumpContext::read'), None, '%s is a known CPU for the system info but has no context layout in MinidumpContext::read: every thread context of such a dump is UnknownCpuContext' % names.get(v, v))
+        elif v in b and v not in a:
+            res.violation('C02.10', 'C02.10|no-cpu|%s' % names.get(v, v), c.fn('minidump::system_info::Cpu::from_processor_architecture'), None, '%s has a context layout but is an unknown CPU for the system info' % names.get(v, v))
+
+
 def run(tier, t0):
     res = harness.Result(PID)
     prog = program()
@@ -612,6 +645,7 @@ def run(tier, t0):
     cpu_union(res, prog)
     identifier_derivation(res, prog)
     code_identifier_derivation(res, prog)
+    architecture_tables(res, prog)
     res.assumptions += [
         'scroll reads a field with the endianness it is given and derive(Pread)/derive(SizeWith) walk the same field list (trusted crate)',
         'field offsets and padding against the serializer, identifier derivation and memory contents are NOT decided (they relate values to values)',
